@@ -1,42 +1,1044 @@
+// C08 — any statement text yields a table or an error: no crash, hang or leak.
+//
+// The real entry point tools/vcli/bw/run.BQL (lexer goroutine, LLk parser,
+// semantic hooks, planner with its errgroup / semaphore fan-out, memory store)
+// is instrumented by verif/instr (cmd/c08/build.sh) and every case — one
+// statement text against one fresh store — is ONE controlled execution under
+// the vsched runtime on the default schedule. The runtime makes the global
+// oracles decidable: a panic in any logical thread is an outcome, at
+// quiescence every thread is either finished or parked on a known operation
+// (deadlock before the call returned, leak after it), a tick / step horizon
+// replaces wall-clock hang detection. Every K-th execution is additionally
+// explored with every schedule of at most one deviation.
+//
+// Input spaces (all enumerated exhaustively inside their bound, see gen.go):
+//
+//	S1 token sequences of length <= 3 over the 55 kinds; viable prefixes + 1 kind (+ ';')
+//	S2 grammar sentences, every single-token mutant, fixed lexeme edits at every position
+//	S3 every byte string of length <= n over a BQL punctuation alphabet
+//	S4 a corpus of valid statements of every kind x chanSize x bulkSize
+//	S5 every single-token mutant / lexeme edit of the corpus statements
+//
+// each against an empty store, a store whose graphs exist but are empty, and a
+// populated store.
 package main
 
 import (
+	"bytes"
 	"context"
+	"encoding/json"
 	"fmt"
 	"os"
+	"os/exec"
+	"path/filepath"
+	"regexp"
+	"runtime"
+	"sort"
+	"strings"
+	"sync"
 	"time"
 
+	"github.com/google/badwolf/bql/grammar"
+	"github.com/google/badwolf/bql/lexer"
+	"github.com/google/badwolf/bql/semantic"
+	"github.com/google/badwolf/bql/table"
+	"github.com/google/badwolf/storage"
 	"github.com/google/badwolf/storage/memory"
 	"github.com/google/badwolf/tools/vcli/bw/run"
 
+	"verif/common"
+	"verif/explore"
+	"verif/recog"
 	"verif/vrt"
 )
 
-func main() {
-	ctx := context.Background()
-	texts := []string{
-		`select ?s from ?a where {?s ?p ?o};`,
-		`select select select select select select select;`,
-		`create graph ?a;`,
-		`foo`,
+var ctx = context.Background()
+
+// the horizon: the largest corpus execution needs ~1e5 ticks and ~2500 steps
+var cfg = vrt.Config{Diag: true, MaxTicks: 3000000, MaxSteps: 60000}
+
+// Case is one replayable execution.
+type Case struct {
+	Space    string `json:"space"`
+	Origin   string `json:"origin,omitempty"`
+	Text     string `json:"text"`
+	Store    string `json:"store"`
+	ChanSize int    `json:"chan_size"`
+	BulkSize int    `json:"bulk_size"`
+	// Choices is the schedule (option index per step; trailing defaults implied).
+	// Empty = the default schedule.
+	Choices []int `json:"choices,omitempty"`
+}
+
+func buildStore(kind string) storage.Store {
+	st := memory.NewStore()
+	if kind == "empty" {
+		return st
 	}
-	for _, diag := range []bool{false, true} {
-		for _, tx := range texts {
-			n := 2000
-			start := time.Now()
-			var last *vrt.Outcome
-			var res string
-			for i := 0; i < n; i++ {
-				last = vrt.Run(vrt.Config{Diag: diag}, vrt.DefaultChooser{}, func() {
-					st := memory.NewStore()
-					st.NewGraph(ctx, "?a")
-					tbl, err := run.BQL(ctx, tx, st, 0, 1)
-					res = fmt.Sprint(tbl != nil, err)
-				})
-			}
-			el := time.Since(start)
-			fmt.Printf("diag=%v %-50q %v/exec status=%s steps=%d ticks=%d threads=%d blocked=%v res=%.80s\n", diag, tx, el/time.Duration(n), last.Status, last.Steps, last.Ticks, last.Threads, last.Blocked, res)
+	for _, n := range graphNames {
+		g, err := st.NewGraph(ctx, n)
+		if err != nil {
+			panic(fmt.Sprintf("harness: NewGraph(%s): %v", n, err))
+		}
+		if kind != "populated" {
+			continue
+		}
+		var err2 error
+		switch n {
+		case "?a":
+			err2 = g.AddTriples(ctx, triplesA)
+		case "?b":
+			err2 = g.AddTriples(ctx, triplesB)
+		}
+		if err2 != nil {
+			panic(fmt.Sprintf("harness: AddTriples(%s): %v", n, err2))
 		}
 	}
+	return st
+}
+
+type callResult struct {
+	tbl      *table.Table
+	err      error
+	returned bool
+}
+
+// mk is the factory of fresh executions of one case.
+func mk(c Case) func() explore.Exec {
+	return func() explore.Exec {
+		res := &callResult{}
+		return explore.Exec{
+			Body: func() {
+				st := buildStore(c.Store) // fresh system under test for every execution
+				tbl, err := run.BQL(ctx, c.Text, st, c.ChanSize, c.BulkSize)
+				res.tbl, res.err, res.returned = tbl, err, true
+				vrt.MarkReturned() // from here on a parked thread is a leak, not a deadlock
+			},
+			Check: func(out *vrt.Outcome) ([]explore.Verdict, string) { return judge(c, res, out) },
+		}
+	}
+}
+
+// ---- oracle -------------------------------------------------------------------------------
+
+func stageOf(err error) (stage, msg string) {
+	s := err.Error()
+	for _, p := range []struct{ stage, prefix string }{
+		{"parse-error", "[ERROR] Failed to parse BQL statement with error "},
+		{"plan-error", "[ERROR] Should have not failed to create a plan"},
+		{"execute-error", "[ERROR] Failed to execute BQL statement with error "},
+		{"init-error", "[ERROR] Failed to initilize"},
+	} {
+		if strings.HasPrefix(s, p.prefix) {
+			return p.stage, s[len(p.prefix):]
+		}
+	}
+	return "other-error", s
+}
+
+// constantPrefix keeps the part of an error message before its first variable part.
+func constantPrefix(s string) string {
+	if i := strings.IndexAny(s, "\"(/?[{<0123456789`'"); i >= 0 {
+		s = s[:i]
+	}
+	s = strings.TrimSpace(s)
+	if len(s) > 90 {
+		s = s[:90]
+	}
+	return s
+}
+
+var upperWord = regexp.MustCompile(`\b[A-Z][A-Z_]{2,}\b`)
+var lexerMsg = regexp.MustCompile(`\[lexer:\d+:\d+\] ([a-zA-Z ,;']+)`)
+
+// errorClass abstracts an error message: its constant prefix, the token kinds
+// and grammar symbols it names (at most six) and the lexer's own message.
+func errorClass(msg string) string {
+	out := constantPrefix(msg)
+	ws := upperWord.FindAllString(msg, -1)
+	var keep []string
+	for _, w := range ws {
+		if w == "ERROR" && len(keep) > 0 && keep[len(keep)-1] == "ERROR" {
+			continue
+		}
+		if len(keep) < 6 {
+			keep = append(keep, w)
+		}
+	}
+	if len(keep) > 0 {
+		out += " | " + strings.Join(keep, " ")
+	}
+	if m := lexerMsg.FindStringSubmatch(msg); m != nil {
+		out += " | lexer: " + strings.TrimSpace(m[1])
+	}
+	return out
+}
+
+func siteFunc(site string) string {
+	if i := strings.Index(site, " ("); i >= 0 {
+		site = site[:i]
+	}
+	// a loop over a channel is rewritten into an iterator closure of the runtime
+	for _, m := range []string{".Range[", ".MapRange["} {
+		if i := strings.Index(site, m); i >= 0 {
+			site = site[:i]
+		}
+	}
+	if site == "" {
+		site = "?"
+	}
+	return site
+}
+
+func panicReason(detail string) string {
+	for _, p := range []struct{ has, name string }{
+		{"nil pointer dereference", "nil-dereference"},
+		{"index out of range", "index-out-of-range"},
+		{"slice bounds out of range", "slice-bounds-out-of-range"},
+		{"makeslice", "makeslice"},
+		{"makechan", "makechan"},
+		{"send on closed channel", "send-on-closed-channel"},
+		{"close of closed channel", "close-of-closed-channel"},
+		{"close of nil channel", "close-of-nil-channel"},
+		{"negative WaitGroup counter", "negative-waitgroup-counter"},
+		{"assignment to entry in nil map", "nil-map-write"},
+		{"interface conversion", "interface-conversion"},
+		{"log.Fatal", "log-fatal"},
+		{"harness:", "HARNESS"},
+	} {
+		if strings.Contains(detail, p.has) {
+			return p.name
+		}
+	}
+	return strings.ReplaceAll(constantPrefix(detail), " ", "-")
+}
+
+// shapeOf is the failure shape of a global-oracle verdict: status plus, per
+// parked thread, the operation and the function it is parked in (no line
+// numbers, so a patch elsewhere in the file does not rename the shape).
+func shapeOf(out *vrt.Outcome) string {
+	switch out.Status {
+	case vrt.StPanic:
+		who := "calling-goroutine"
+		if out.PanicTid != 0 {
+			who = "started-goroutine"
+		}
+		return fmt.Sprintf("panic:%s@%s[%s]", panicReason(out.Detail), out.PanicSite, who)
+	case vrt.StDeadlock, vrt.StLeak:
+		var ks []string
+		for _, b := range out.Blocked {
+			op := b.Pending
+			if i := strings.IndexAny(op, " #{"); i >= 0 {
+				op = op[:i]
+			}
+			who := ""
+			if b.Tid == 0 {
+				who = "[calling-goroutine]"
+			}
+			ks = append(ks, op+"@"+siteFunc(b.Site)+who)
+		}
+		sort.Strings(ks)
+		return string(out.Status) + ":" + strings.Join(ks, ",")
+	case vrt.StHorizon:
+		if strings.Contains(out.Detail, "tick") {
+			return "horizon:tick-budget"
+		}
+		return "horizon:step-budget"
+	}
+	return string(out.Status)
+}
+
+func judge(c Case, res *callResult, out *vrt.Outcome) ([]explore.Verdict, string) {
+	if out.Status != vrt.StOK {
+		sh := shapeOf(out)
+		if strings.Contains(sh, "HARNESS") {
+			common.Machinery("the harness itself failed on %+v: %s", c, out.Detail)
+		}
+		d := fmt.Sprintf("%q (space %s, %s) on the %s store, chanSize %d, bulkSize %d: %s after %d steps in %d threads: %s", c.Text, c.Space, c.Origin, c.Store, c.ChanSize, c.BulkSize, out.Status, out.Steps, out.Threads, out.Detail)
+		if res.returned {
+			d += fmt.Sprintf("\n  the call had returned (table=%v, err=%v)", res.tbl != nil, clip(fmt.Sprint(res.err), 200))
+		} else {
+			d += "\n  the call had NOT returned"
+		}
+		for _, b := range out.Blocked {
+			d += fmt.Sprintf("\n  thread %d parked in %s at %s", b.Tid, b.Pending, b.Site)
+		}
+		if out.Status == vrt.StPanic {
+			d += "\n" + clip(out.Stack, 1800)
+		}
+		return []explore.Verdict{{Class: classOf(c), Shape: sh, Detail: d}}, string(out.Status) + ":" + sh
+	}
+	if !res.returned {
+		common.Machinery("execution of %+v ended ok although the call never returned", c)
+	}
+	switch {
+	case res.err != nil:
+		st, msg := stageOf(res.err)
+		return nil, st + ": " + errorClass(msg)
+	case res.tbl == nil:
+		return []explore.Verdict{{Class: classOf(c), Shape: "returns-nil-table-and-nil-error",
+			Detail: fmt.Sprintf("%q on the %s store returned (nil, nil): neither a table nor an error", c.Text, c.Store)}}, "nil,nil"
+	}
+	// the table must be usable: what the CLI does with it next
+	var cols, rows int
+	if p := common.Guard(func() { cols, rows = len(res.tbl.Bindings()), res.tbl.NumRows(); _ = res.tbl.String() }); p != nil {
+		return []explore.Verdict{{Class: classOf(c), Shape: "result-table-unusable:panic-in-String",
+			Detail: fmt.Sprintf("%q on the %s store returned a table whose String() panics: %v", c.Text, c.Store, p)}}, "table-unusable"
+	}
+	return nil, fmt.Sprintf("table: %d columns, %d rows", cols, rows)
+}
+
+// ---- input classifier -----------------------------------------------------------------------
+
+// probe parses the text once more, under control, on a parser of its own and
+// then drains the LLk: how many tokens (including the terminating EOF / ERROR)
+// had not been consumed when the parser stopped.
+type probeResult struct {
+	status   vrt.Status
+	accepted bool
+	left     int
+	first    lexer.TokenType
+	kinds    map[lexer.TokenType]bool
+}
+
+var (
+	probeParser *grammar.Parser
+	probeMemo   = map[string]*probeResult{}
+)
+
+func probe(text string) *probeResult {
+	if p, ok := probeMemo[text]; ok {
+		return p
+	}
+	if probeParser == nil {
+		p, err := grammar.NewParser(grammar.SemanticBQL())
+		if err != nil {
+			common.Machinery("NewParser: %v", err)
+		}
+		probeParser = p
+	}
+	pr := &probeResult{kinds: map[lexer.TokenType]bool{}}
+	out := vrt.Run(vrt.Config{MaxTicks: cfg.MaxTicks, MaxSteps: cfg.MaxSteps}, vrt.DefaultChooser{}, func() {
+		llk := grammar.NewLLk(text, 1)
+		pr.first = llk.Current().Type
+		// kinds of the whole text, from a second lexer run
+		for t := range vrt.Range(lexer.New(text, 0)) {
+			pr.kinds[t.Type] = true
+		}
+		err := probeParser.Parse(llk, &semantic.Statement{})
+		pr.accepted = err == nil
+		for {
+			pr.left++
+			t := llk.Current().Type
+			if t == lexer.ItemEOF || t == lexer.ItemError {
+				break
+			}
+			llk.Consume(t)
+		}
+	})
+	pr.status = out.Status
+	if len(probeMemo) > 200000 {
+		probeMemo = map[string]*probeResult{}
+	}
+	probeMemo[text] = pr
+	return pr
+}
+
+var featureKinds = []struct {
+	k    lexer.TokenType
+	name string
+}{
+	{lexer.ItemOptional, "optional"}, {lexer.ItemGroup, "group-by"}, {lexer.ItemCount, "count"}, {lexer.ItemSum, "sum"},
+	{lexer.ItemOrder, "order-by"}, {lexer.ItemHaving, "having"}, {lexer.ItemLimit, "limit"}, {lexer.ItemBefore, "before"},
+	{lexer.ItemAfter, "after"}, {lexer.ItemBetween, "between"}, {lexer.ItemFilter, "filter"}, {lexer.ItemBlankNode, "blank-node"},
+	{lexer.ItemPredicateBound, "predicate-bound"}, {lexer.ItemSemicolon, ""},
+}
+
+// classOf is the input classifier: computed from the case alone (text, store,
+// configuration) — never from the verdict of the execution being judged.
+func classOf(c Case) string {
+	p := probe(c.Text)
+	switch p.status {
+	case vrt.StOK:
+	case vrt.StHorizon:
+		return "text-on-which-lexing-or-parsing-alone-does-not-terminate"
+	default:
+		return "text-on-which-parsing-alone-fails-with-" + string(p.status)
+	}
+	if !p.accepted {
+		if p.left > 4 {
+			return "rejected-at-parse-with-more-than-4-tokens-left"
+		}
+		return "rejected-at-parse-with-at-most-4-tokens-left"
+	}
+	fs := []string{"accepted-by-parser", "kind:" + strings.ToLower(p.first.String()), "store:" + c.Store}
+	for _, f := range featureKinds {
+		if f.name != "" && p.kinds[f.k] {
+			fs = append(fs, f.name)
+		}
+	}
+	if c.ChanSize != 0 || c.BulkSize != 1 {
+		fs = append(fs, fmt.Sprintf("chanSize:%d", c.ChanSize), fmt.Sprintf("bulkSize:%d", c.BulkSize))
+	}
+	return strings.Join(fs, ",")
+}
+
+func clip(s string, n int) string {
+	if len(s) > n {
+		return s[:n] + "…"
+	}
+	return s
+}
+
+// ---- worker -----------------------------------------------------------------------------------
+
+type job struct {
+	Space      string    `json:"space"`
+	Chunk      int       `json:"chunk"`
+	Cases      []genCase `json:"cases"`
+	Stores     []string  `json:"stores"`
+	Configs    [][2]int  `json:"configs"` // (chanSize, bulkSize)
+	K          int       `json:"k"`       // every K-th execution is explored with deviation bound 1 (0: none)
+	B1DefCfg   bool      `json:"b1_default_config_only"`
+	DeadlineMs int64     `json:"deadline_ms"`
+}
+
+type failOut struct {
+	Class  string `json:"class"`
+	Shape  string `json:"shape"`
+	Case   Case   `json:"case"`
+	Detail string `json:"detail"`
+	Count  int    `json:"count"`
+}
+
+type chunkOut struct {
+	Space      string         `json:"space"`
+	Chunk      int            `json:"chunk"`
+	Cases      int            `json:"cases"`
+	Execs      int            `json:"execs"`
+	Stages     map[string]int `json:"stages"`   // table | parse-error | plan-error | execute-error | <status>
+	Statuses   map[string]int `json:"statuses"` // ok | panic | deadlock | leak | horizon
+	Outcomes   map[string]int `json:"outcomes"`
+	PerStore   map[string]int `json:"per_store"`
+	Threads    map[int]int    `json:"threads"`
+	MaxSteps   int            `json:"max_steps"`
+	MaxTicks   int            `json:"max_ticks"`
+	MaxThreads int            `json:"max_threads"`
+	TotalSteps int64          `json:"total_steps"`
+	HB         []uint64       `json:"hb"`
+	HBTrunc    bool           `json:"hb_truncated"`
+	Fails      []failOut      `json:"fails"`
+	// deviation bound 1 on the systematic subset
+	B1Cases     int            `json:"b1_cases"`
+	B1Execs     int            `json:"b1_execs"`
+	B1Complete  bool           `json:"b1_complete"`
+	B1MaxSteps  int            `json:"b1_max_steps"`
+	B1Outcomes  map[string]int `json:"b1_outcomes"`
+	B1MultiOutc int            `json:"b1_cases_with_more_than_one_outcome"`
+	Nondet      string         `json:"nondet,omitempty"`
+	Partial     bool           `json:"partial"`
+	Sample      *Case          `json:"sample,omitempty"`
+	SampleTrace string         `json:"sample_trace,omitempty"`
+	WallMs      int64          `json:"wall_ms"`
+}
+
+func serveWorker() {
+	var j job
+	if err := json.NewDecoder(os.Stdin).Decode(&j); err != nil {
+		fmt.Fprintf(os.Stderr, "c08 worker: bad job: %v\n", err)
+		os.Exit(2)
+	}
+	o := runJob(&j)
+	b, _ := json.Marshal(o)
+	os.Stdout.Write(b)
 	os.Exit(0)
+}
+
+func runJob(j *job) *chunkOut {
+	start := time.Now()
+	o := &chunkOut{Space: j.Space, Chunk: j.Chunk, Stages: map[string]int{}, Statuses: map[string]int{}, Outcomes: map[string]int{},
+		PerStore: map[string]int{}, Threads: map[int]int{}, B1Outcomes: map[string]int{}, B1Complete: true}
+	fails := map[string]*failOut{}
+	var forder []string
+	hb := map[uint64]struct{}{}
+	addFail := func(v explore.Verdict, c Case, n int) {
+		k := v.Class + "|" + v.Shape
+		if f, ok := fails[k]; ok {
+			f.Count += n
+			return
+		}
+		fails[k] = &failOut{Class: v.Class, Shape: v.Shape, Case: c, Detail: v.Detail, Count: n}
+		forder = append(forder, k)
+	}
+	per := len(j.Stores) * len(j.Configs)
+	for _, gc := range j.Cases {
+		if j.DeadlineMs > 0 && time.Now().UnixMilli() > j.DeadlineMs {
+			o.Partial = true
+			break
+		}
+		o.Cases++
+		for si, store := range j.Stores {
+			for ci, cf := range j.Configs {
+				c := Case{Space: j.Space, Origin: gc.Origin, Text: gc.Text, Store: store, ChanSize: cf[0], BulkSize: cf[1]}
+				ex := mk(c)()
+				out := vrt.Run(cfg, vrt.DefaultChooser{}, ex.Body)
+				vs, oc := ex.Check(out)
+				o.Execs++
+				o.PerStore[store]++
+				o.Statuses[string(out.Status)]++
+				o.Outcomes[oc]++
+				st := oc
+				if i := strings.Index(st, ":"); i >= 0 {
+					st = st[:i]
+				}
+				o.Stages[st]++
+				o.Threads[out.Threads]++
+				o.TotalSteps += int64(out.Steps)
+				if out.Steps > o.MaxSteps {
+					o.MaxSteps = out.Steps
+				}
+				if out.Ticks > o.MaxTicks {
+					o.MaxTicks = out.Ticks
+				}
+				if out.Threads > o.MaxThreads {
+					o.MaxThreads = out.Threads
+				}
+				if len(hb) < 50000 {
+					hb[out.HB] = struct{}{}
+				} else {
+					o.HBTrunc = true
+				}
+				if o.Sample == nil && out.Status == vrt.StOK && out.Threads > 2 {
+					cc := c
+					o.Sample, o.SampleTrace = &cc, clip(vrt.FormatTrace(out.Trace), 1200)
+				}
+				for _, v := range vs {
+					if _, seen := fails[v.Class+"|"+v.Shape]; !seen {
+						// determinism: the default schedule must reproduce the verdict
+						for rep := 0; rep < 2; rep++ {
+							ex2 := mk(c)()
+							out2 := vrt.Run(cfg, vrt.DefaultChooser{}, ex2.Body)
+							vs2, _ := ex2.Check(out2)
+							found := false
+							for _, v2 := range vs2 {
+								if v2.Class == v.Class && v2.Shape == v.Shape {
+									found = true
+								}
+							}
+							if !found || out2.Status != out.Status || out2.Steps != out.Steps {
+								o.Nondet = fmt.Sprintf("case %+v: first run %s %s (%d steps), re-run %s %v (%d steps)", c, out.Status, v.Shape, out.Steps, out2.Status, vs2, out2.Steps)
+								return o
+							}
+						}
+					}
+					addFail(v, c, 1)
+				}
+				// systematic subset: every schedule with at most one deviation
+				if j.K > 0 && (gc.Idx*per+si*len(j.Configs)+ci)%j.K == 0 && (!j.B1DefCfg || (cf[0] == 0 && cf[1] == 1)) {
+					res := explore.Explore(j.Space, explore.Options{Mode: explore.Bounded, Bound: 1, Cfg: cfg, Confirm: 2, DeadlineMs: j.DeadlineMs}, mk(c))
+					if res.Nondet != "" {
+						o.Nondet = fmt.Sprintf("case %+v: %s", c, res.Nondet)
+						return o
+					}
+					o.B1Cases++
+					o.B1Execs += res.Executions
+					if !res.Complete {
+						o.B1Complete = false
+					}
+					if res.MaxSteps > o.B1MaxSteps {
+						o.B1MaxSteps = res.MaxSteps
+					}
+					if len(res.Outcomes) > 1 {
+						o.B1MultiOutc++
+					}
+					for k, n := range res.Outcomes {
+						o.B1Outcomes[k] += n
+					}
+					for _, f := range res.Failures {
+						cc := c
+						cc.Choices = f.Choices
+						v := f.Verdict
+						if len(f.Choices) > 0 {
+							v.Detail = fmt.Sprintf("schedule %v (one deviation from the default schedule): %s", f.Choices, v.Detail)
+						}
+						// the default schedule's own failure was already counted by the single run above
+						if len(f.Choices) == 0 {
+							if f.Count > 1 {
+								addFail(v, cc, f.Count-1)
+							}
+							continue
+						}
+						addFail(v, cc, f.Count)
+					}
+				}
+			}
+		}
+	}
+	for h := range hb {
+		o.HB = append(o.HB, h)
+	}
+	sort.Slice(o.HB, func(a, b int) bool { return o.HB[a] < o.HB[b] })
+	for _, k := range forder {
+		o.Fails = append(o.Fails, *fails[k])
+	}
+	o.WallMs = time.Since(start).Milliseconds()
+	return o
+}
+
+// runJobs runs every job in its own worker process (the runtime is a process-wide singleton).
+func runJobs(jobs []*job, par int) ([]*chunkOut, error) {
+	exe, err := os.Executable()
+	if err != nil {
+		return nil, err
+	}
+	res := make([]*chunkOut, len(jobs))
+	errs := make([]error, len(jobs))
+	sem := make(chan struct{}, par)
+	var wg sync.WaitGroup
+	for i := range jobs {
+		wg.Add(1)
+		sem <- struct{}{}
+		go func(i int) {
+			defer wg.Done()
+			defer func() { <-sem }()
+			if jobs[i].DeadlineMs > 0 && time.Now().UnixMilli() > jobs[i].DeadlineMs {
+				res[i] = &chunkOut{Space: jobs[i].Space, Chunk: jobs[i].Chunk, Partial: true, B1Complete: true}
+				return
+			}
+			in, _ := json.Marshal(jobs[i])
+			cmd := exec.Command(exe)
+			cmd.Env = append(os.Environ(), "C08_WORKER=1", "GOMAXPROCS=2")
+			cmd.Stdin = bytes.NewReader(in)
+			var out, eb bytes.Buffer
+			cmd.Stdout, cmd.Stderr = &out, &eb
+			if err := cmd.Run(); err != nil {
+				errs[i] = fmt.Errorf("worker for %s chunk %d: %v\n%s\n%s", jobs[i].Space, jobs[i].Chunk, err, clip(eb.String(), 4000), clip(out.String(), 2000))
+				return
+			}
+			var r chunkOut
+			if err := json.Unmarshal(out.Bytes(), &r); err != nil {
+				errs[i] = fmt.Errorf("worker for %s chunk %d: unreadable result: %v\n%s", jobs[i].Space, jobs[i].Chunk, err, clip(out.String(), 800))
+				return
+			}
+			res[i] = &r
+		}(i)
+	}
+	wg.Wait()
+	for _, e := range errs {
+		if e != nil {
+			return res, e
+		}
+	}
+	return res, nil
+}
+
+// ---- main ---------------------------------------------------------------------------------------
+
+type spacePlan struct {
+	gen     *spaceGen
+	stores  []string
+	configs [][2]int
+	k       int
+	b1def   bool
+	what    string
+	extra   map[string]interface{}
+}
+
+// lexerGuard runs the real lexer, under control, over every canonical lexeme
+// after every possible previous kind (the lexer's only state besides its
+// position) and over the corpus. The generators lex natively (recog.Render);
+// this keeps a lexer that does not terminate from hanging the check itself:
+// it is reported here, by the horizon, as a violation.
+func lexerGuard(r *common.Run, kinds []recog.Kind) bool {
+	ok := true
+	n := 0
+	try := func(text, what string) {
+		n++
+		toks := 0
+		out := vrt.Run(cfg, vrt.DefaultChooser{}, func() {
+			for range vrt.Range(lexer.New(text, 0)) {
+				toks++
+			}
+		})
+		if out.Status != vrt.StOK {
+			ok = false
+			c := Case{Space: "S0", Origin: what, Text: text, Store: "empty", BulkSize: 1}
+			r.Fail(common.Failure{Check: "exec", Class: "canonical-lexemes:" + what, Shape: "lexer-alone:" + shapeOf(out), Case: c,
+				Detail: fmt.Sprintf("lexing %q alone (no parser): %s %s", text, out.Status, out.Detail)})
+		}
+	}
+	for _, k := range kinds {
+		if t, ok := recog.RenderRaw([]recog.Kind{k}); ok {
+			try(t, "single")
+		}
+		for _, k2 := range kinds {
+			if t, ok := recog.RenderRaw([]recog.Kind{k, k2}); ok {
+				try(t, "pair")
+			}
+		}
+	}
+	for _, c := range corpus {
+		try(c, "corpus")
+	}
+	r.Set("lexer_guard_texts", n)
+	return ok
+}
+
+func main() {
+	if os.Getenv("C08_WORKER") != "" {
+		triplesA, triplesB = parseTriples(populatedA), parseTriples(populatedB)
+		serveWorker()
+		return
+	}
+	r := common.Start("C08", "model_checking")
+	triplesA, triplesB = parseTriples(populatedA), parseTriples(populatedB)
+	r.Replayer("exec", func(raw json.RawMessage) (bool, string) {
+		var c Case
+		if err := json.Unmarshal(raw, &c); err != nil {
+			return false, "case does not parse: " + err.Error()
+		}
+		if c.Space == "S0" {
+			out := vrt.Run(cfg, vrt.DefaultChooser{}, func() {
+				for range vrt.Range(lexer.New(c.Text, 0)) {
+				}
+			})
+			if out.Status != vrt.StOK {
+				return false, fmt.Sprintf("lexing %q alone: %s %s", c.Text, out.Status, out.Detail)
+			}
+			return true, fmt.Sprintf("lexing %q alone terminates (%d steps)", c.Text, out.Steps)
+		}
+		out, vs, oc, bad := explore.Replay(cfg, mk(c), c.Choices)
+		if bad != "" {
+			common.Machinery("NONDETERMINISM the recorded schedule does not fit the program: %s", bad)
+		}
+		if len(vs) > 0 {
+			return false, fmt.Sprintf("class %s, shape %s\n%s\ntrace: %s", vs[0].Class, vs[0].Shape, vs[0].Detail, clip(vrt.FormatTrace(out.Trace), 3000))
+		}
+		return true, fmt.Sprintf("%q on the %s store, schedule %v: status %s after %d steps in %d threads; %s", c.Text, c.Store, c.Choices, out.Status, out.Steps, out.Threads, oc)
+	})
+	r.MaybeReplay()
+	if !instrumented() {
+		common.Machinery("cmd/c08 was built without the vsched overlay (use ./vcheck C08 or cmd/c08/build.sh)")
+	}
+	r.Assume("one case = one controlled execution of the instrumented real code (run.BQL and everything below it) on the default schedule: scheduling points are the synchronisation operations (channel, mutex, waitgroup, select, go); the runtime's channel / WaitGroup / RWMutex semantics are its transcription of Go's (self-tests: go test ./explore)")
+	r.Assume("leak = at quiescence after the call returned some thread is parked forever; a goroutine that is still runnable when the call returns but runs to completion on its own (the lexer pushing its last tokens into the channel buffer, a worker between wg.Done() and its return) is not counted: no caller can distinguish it from one that finished just before the return, and every use of sync.WaitGroup has this window")
+	r.Assume("hang = deadlock before the call returned, or the tick / step horizon (3e6 ticks, 6e4 scheduled operations; the largest execution observed is reported as max_ticks / max_steps)")
+	r.Assume("configuration is not input: chanSize and bulkSize are quantified over the non-negative values {0,1,3} x {0,1,1000} on the corpus only; negative sizes (make(chan, 2*bulkSize) panics for bulkSize < 0) are outside the property, which quantifies over text and store content")
+	r.Assume("blank node ids (triple/node stays native: its init daemon produces random UUIDs) do not influence the schedule: the op trace of the default schedule is compared between two runs for every explored case")
+	r.Assume("the input classifier of a failing case (rejected-at-parse-with-more-than-4-tokens-left, ...) is computed by a separate controlled parse of the same text on a parser of its own that then drains the token stream and counts what the parser had not consumed")
+
+	kinds := recog.Kinds()
+	tbl := recog.FromGrammar(grammar.BQL()).Prepare()
+	an := tbl.Analyse()
+	if len(an.Undefined) > 0 || len(an.LeftRecursive) > 0 {
+		common.Machinery("grammar table not analysable (undefined=%v left-recursive=%v): see C17", an.Undefined, an.LeftRecursive)
+	}
+	r.Set("token_kinds", len(kinds))
+
+	budget := time.Duration(r.Pick(130, 1020)) * time.Second
+	if s := os.Getenv("C08_BUDGET_S"); s != "" {
+		var v int
+		fmt.Sscan(s, &v)
+		budget = time.Duration(v) * time.Second
+	}
+	start := time.Now()
+	deadline := start.Add(budget)
+
+	if !lexerGuard(r, kinds) {
+		// the generators would hang on native lexing: report what the guard found and stop
+		r.SetCapped()
+		r.Set("states", 1)
+		r.Set("transitions", 1)
+		r.Set("traces_validated_against_impl", r.Get("lexer_guard_texts"))
+		r.Set("rule", "the lexer alone does not terminate on canonical lexemes: input spaces not generated")
+		r.Sample(map[string]string{"note": "lexer guard failed"})
+		r.Finish()
+	}
+
+	// ---- generate the spaces
+	maxPrefix := r.Pick(7, 9)
+	sentLen, mutLen, editLen := r.Pick(14, 15), r.Pick(12, 14), r.Pick(13, 15)
+	s3Len := r.Pick(3, 4)
+	k := r.Pick(101, 53)
+	if s := os.Getenv("C08_PARAMS"); s != "" { // maxPrefix,sentLen,mutLen,editLen,s3Len,k (trial runs)
+		fmt.Sscanf(s, "%d,%d,%d,%d,%d,%d", &maxPrefix, &sentLen, &mutLen, &editLen, &s3Len, &k)
+	}
+	tGen := time.Now()
+	s1, s1levels := genS1(tbl, kinds, maxPrefix)
+	s2, s2stats := genS2(tbl, kinds, sentLen, mutLen, editLen)
+	s3 := genS3(s3Len)
+	s4 := genS4()
+	s5 := genS5(kinds)
+	genWall := time.Since(tGen).Seconds()
+	def := [][2]int{{0, 1}}
+	var allCfg [][2]int
+	for _, cs := range []int{0, 1, 3} {
+		for _, bs := range []int{0, 1, 1000} {
+			allCfg = append(allCfg, [2]int{cs, bs})
+		}
+	}
+	plans := []*spacePlan{
+		{gen: s4, stores: storeKinds, configs: allCfg, k: 1, b1def: !r.Thorough(), what: fmt.Sprintf("corpus of %d valid statements of every kind x chanSize {0,1,3} x bulkSize {0,1,1000}", len(corpus))},
+		{gen: s3, stores: storeKinds, configs: def, k: k, what: fmt.Sprintf("every byte string of length <= %d over %q", s3Len, s3Alphabet)},
+		{gen: s1, stores: storeKinds, configs: def, k: k, what: fmt.Sprintf("every token sequence of length <= 3 over the %d kinds; every viable grammar prefix of length <= %d extended by each kind, with and without a closing ';'", len(kinds), maxPrefix),
+			extra: map[string]interface{}{"viable_prefix_levels": s1levels}},
+		{gen: s2, stores: storeKinds, configs: def, k: k, what: fmt.Sprintf("every grammar sentence of <= %d tokens (canonical lexemes, and once with distinct bindings); every single-token mutant (delete, duplicate, truncate, replace by each other kind) of those of <= %d tokens; every fixed lexeme edit at every fitting position of those of <= %d tokens", sentLen, mutLen, editLen),
+			extra: map[string]interface{}{"sentence_stats": s2stats}},
+		{gen: s5, stores: storeKinds, configs: def, k: k, what: "every single-token mutant (delete, duplicate, truncate, replace by the canonical lexeme of each kind) and every fitting lexeme edit of every corpus statement"},
+	}
+	if only := os.Getenv("C08_ONLY"); only != "" { // trial runs: a subset of the spaces
+		var ps []*spacePlan
+		for _, p := range plans {
+			if strings.Contains(only, p.gen.name) {
+				ps = append(ps, p)
+			}
+		}
+		plans = ps
+		r.SetCapped()
+	}
+
+	// ---- chunk the spaces into jobs, largest executions first
+	par := runtime.NumCPU()
+	if par > 16 {
+		par = 16
+	}
+	var jobs []*job
+	for _, p := range plans {
+		n := len(p.gen.cases)
+		size := n/(par*6) + 1
+		if size > 6000 {
+			size = 6000
+		}
+		if p.gen.name == "S4" {
+			size = 1
+		}
+		for lo, ch := 0, 0; lo < n; lo, ch = lo+size, ch+1 {
+			hi := lo + size
+			if hi > n {
+				hi = n
+			}
+			jobs = append(jobs, &job{Space: p.gen.name, Chunk: ch, Cases: p.gen.cases[lo:hi], Stores: p.stores, Configs: p.configs, K: p.k, B1DefCfg: p.b1def, DeadlineMs: deadline.UnixMilli()})
+		}
+	}
+	outs, err := runJobs(jobs, par)
+	if err != nil {
+		common.Machinery("worker failed: %v", err)
+	}
+
+	// ---- merge
+	type spaceRep struct {
+		Space            string                 `json:"space"`
+		What             string                 `json:"what"`
+		Generated        int                    `json:"texts_generated"`
+		Unrenderable     int                    `json:"token_sequences_no_text_can_produce_skipped"`
+		Duplicates       int                    `json:"duplicate_texts_dropped"`
+		Cases            int                    `json:"distinct_texts"`
+		CasesRun         int                    `json:"distinct_texts_executed"`
+		PerOrigin        map[string]int         `json:"texts_per_origin"`
+		Stores           []string               `json:"stores"`
+		Configs          [][2]int               `json:"chan_size_bulk_size"`
+		Execs            int                    `json:"executions"`
+		Returned         map[string]int         `json:"executions_by_result"`
+		Statuses         map[string]int         `json:"executions_by_status"`
+		DistinctOutcomes int                    `json:"distinct_outcomes"`
+		MaxSteps         int                    `json:"max_steps"`
+		MaxTicks         int                    `json:"max_ticks"`
+		MaxThreads       int                    `json:"max_threads"`
+		Threads          map[string]int         `json:"executions_by_thread_count"`
+		K                int                    `json:"bound1_every_kth_execution"`
+		B1Cases          int                    `json:"bound1_cases"`
+		B1Execs          int                    `json:"bound1_schedules"`
+		B1Complete       bool                   `json:"bound1_completed"`
+		B1MaxSteps       int                    `json:"bound1_max_steps"`
+		B1Multi          int                    `json:"bound1_cases_whose_outcome_depends_on_the_schedule"`
+		Exhaustive       bool                   `json:"exhaustive"`
+		Extra            map[string]interface{} `json:"extra,omitempty"`
+	}
+	reps := map[string]*spaceRep{}
+	outcomes := map[string]map[string]int{}
+	allOutcomes := map[string]int{}
+	hb := map[uint64]struct{}{}
+	var order []string
+	for _, p := range plans {
+		g := p.gen
+		reps[g.name] = &spaceRep{Space: g.name, What: p.what, Generated: g.generated, Unrenderable: g.unrenderable, Duplicates: g.duplicates, Cases: len(g.cases),
+			PerOrigin: g.perOrigin, Stores: p.stores, Configs: p.configs, Returned: map[string]int{}, Statuses: map[string]int{}, Threads: map[string]int{},
+			K: p.k, B1Complete: true, Exhaustive: true, Extra: p.extra}
+		outcomes[g.name] = map[string]int{}
+		order = append(order, g.name)
+	}
+	totalExecs, totalB1, totalSteps := 0, 0, int64(0)
+	type merged struct {
+		f     failOut
+		count int
+	}
+	fails := map[string]*merged{}
+	var forder []string
+	var samples []interface{}
+	for _, o := range outs {
+		if o == nil {
+			continue
+		}
+		if o.Nondet != "" {
+			common.Machinery("NONDETERMINISM %s chunk %d: %s", o.Space, o.Chunk, o.Nondet)
+		}
+		if os.Getenv("C08_DEBUG") != "" {
+			fmt.Printf("    chunk %s/%d: cases=%d execs=%d b1=%d/%d wall=%dms partial=%v\n", o.Space, o.Chunk, o.Cases, o.Execs, o.B1Cases, o.B1Execs, o.WallMs, o.Partial)
+		}
+		sr := reps[o.Space]
+		sr.CasesRun += o.Cases
+		sr.Execs += o.Execs
+		for k2, v := range o.Stages {
+			sr.Returned[k2] += v
+		}
+		for k2, v := range o.Statuses {
+			sr.Statuses[k2] += v
+		}
+		for k2, v := range o.Outcomes {
+			outcomes[o.Space][k2] += v
+			allOutcomes[k2] += v
+		}
+		for k2, v := range o.B1Outcomes {
+			allOutcomes[k2] += v
+		}
+		for k2, v := range o.Threads {
+			sr.Threads[fmt.Sprint(k2)] += v
+		}
+		if o.MaxSteps > sr.MaxSteps {
+			sr.MaxSteps = o.MaxSteps
+		}
+		if o.MaxTicks > sr.MaxTicks {
+			sr.MaxTicks = o.MaxTicks
+		}
+		if o.MaxThreads > sr.MaxThreads {
+			sr.MaxThreads = o.MaxThreads
+		}
+		sr.B1Cases += o.B1Cases
+		sr.B1Execs += o.B1Execs
+		sr.B1Multi += o.B1MultiOutc
+		if o.B1MaxSteps > sr.B1MaxSteps {
+			sr.B1MaxSteps = o.B1MaxSteps
+		}
+		if !o.B1Complete {
+			sr.B1Complete = false
+		}
+		if o.Partial {
+			sr.Exhaustive = false
+		}
+		totalExecs += o.Execs
+		totalB1 += o.B1Execs
+		totalSteps += o.TotalSteps
+		for _, h := range o.HB {
+			hb[h] = struct{}{}
+		}
+		for _, f := range o.Fails {
+			k2 := f.Class + "|" + f.Shape
+			if m, ok := fails[k2]; ok {
+				m.count += f.Count
+				continue
+			}
+			fails[k2] = &merged{f: f, count: f.Count}
+			forder = append(forder, k2)
+		}
+		if o.Sample != nil && len(samples) < 6 && (o.Chunk%7 == 0 || o.Space == "S4") {
+			samples = append(samples, map[string]interface{}{"case": o.Sample, "op_trace": o.SampleTrace})
+		}
+	}
+	sort.Strings(forder)
+	for _, k2 := range forder {
+		m := fails[k2]
+		for i := 0; i < m.count; i++ {
+			r.Fail(common.Failure{Check: "exec", Class: m.f.Class, Shape: m.f.Shape, Case: m.f.Case, Detail: m.f.Detail})
+		}
+	}
+	var spaceList []*spaceRep
+	accepted, rejected, skipped := 0, 0, 0
+	bound1Complete := true
+	for _, n := range order {
+		sr := reps[n]
+		sr.DistinctOutcomes = len(outcomes[n])
+		if sr.CasesRun < sr.Cases {
+			sr.Exhaustive = false
+		}
+		if !sr.Exhaustive || !sr.B1Complete {
+			r.SetCapped()
+		}
+		if !sr.B1Complete || !sr.Exhaustive {
+			bound1Complete = false
+		}
+		accepted += sr.Returned["table"]
+		rejected += sr.Returned["parse-error"] + sr.Returned["plan-error"] + sr.Returned["execute-error"] + sr.Returned["other-error"]
+		skipped += sr.Unrenderable
+		spaceList = append(spaceList, sr)
+		fmt.Printf("  %-3s texts=%-8d executions=%-8d results=%v statuses=%v outcomes=%d max-steps=%d max-threads=%d unrenderable=%d bound1: cases=%d schedules=%d complete=%v schedule-dependent=%d exhaustive=%v\n",
+			sr.Space, sr.Cases, sr.Execs, sr.Returned, sr.Statuses, sr.DistinctOutcomes, sr.MaxSteps, sr.MaxThreads, sr.Unrenderable, sr.B1Cases, sr.B1Execs, sr.B1Complete, sr.B1Multi, sr.Exhaustive)
+	}
+	r.Set("spaces", spaceList)
+	r.Set("executions_default_schedule", totalExecs)
+	r.Set("executions_bound1", totalB1)
+	r.Set("returned_a_table", accepted)
+	r.Set("returned_an_error", rejected)
+	r.Set("token_sequences_no_text_can_produce_skipped", skipped)
+	r.Set("deviation_bound_completed_on_subset", map[bool]int{true: 1, false: 0}[bound1Complete])
+	r.Set("generation_wall_s", genWall)
+	// the most frequent outcomes, and all of them counted
+	type oc struct {
+		O string `json:"outcome"`
+		N int    `json:"executions"`
+	}
+	var ocs []oc
+	for k2, v := range allOutcomes {
+		ocs = append(ocs, oc{k2, v})
+	}
+	sort.Slice(ocs, func(a, b int) bool {
+		if ocs[a].N != ocs[b].N {
+			return ocs[a].N > ocs[b].N
+		}
+		return ocs[a].O < ocs[b].O
+	})
+	r.Set("distinct_outcomes", len(ocs))
+	if len(ocs) > 60 {
+		ocs = ocs[:60]
+	}
+	r.Set("most_frequent_outcomes", ocs)
+	r.Set("states", len(hb)) // distinct happens-before partial orders of the op traces of the default-schedule executions
+	r.Set("transitions", int(totalSteps))
+	r.Set("traces_validated_against_impl", totalExecs+totalB1)
+	r.Set("evaluations", totalExecs+totalB1)
+	r.Set("distinct_nontrivial", len(ocs))
+	r.Set("rule", "case = (statement text, store in {empty, graphs exist but empty, populated}, chanSize, bulkSize); one controlled execution of run.BQL per case on the default schedule, plus every schedule with at most one deviation for every K-th execution of a space (K per space in spaces[].bound1_every_kth_execution); texts are enumerated exhaustively per space (spaces[].what) and de-duplicated; states = distinct happens-before partial orders among the default-schedule executions, transitions = scheduled operations, distinct_nontrivial = distinct outcomes (result stage + constant part of the error message, or table shape, or oracle verdict)")
+	if b, err := os.ReadFile(filepath.Join(common.Root(), instrDir(), "inventory.json")); err == nil {
+		var inv map[string]interface{}
+		if json.Unmarshal(b, &inv) == nil {
+			r.Set("instrumentation_inventory", inv)
+		}
+	}
+	for _, s := range samples {
+		r.Sample(s)
+	}
+	for _, p := range plans {
+		if n := len(p.gen.cases); n > 0 {
+			r.Sample(Case{Space: p.gen.name, Origin: p.gen.cases[n/2].Origin, Text: p.gen.cases[n/2].Text, Store: "populated", BulkSize: 1})
+		}
+	}
+	r.Finish()
+}
+
+func instrDir() string {
+	if d := os.Getenv("C08_INSTR_DIR"); d != "" {
+		return d
+	}
+	return "work/instr/c08"
+}
+
+// instrumented reports whether the lexer was compiled from the rewritten
+// sources: under the scheduler lexing must produce scheduling events.
+func instrumented() bool {
+	n := 0
+	out := vrt.Run(vrt.Config{}, vrt.DefaultChooser{}, func() {
+		for range vrt.Range(lexer.New("select ?a", 0)) {
+			n++
+		}
+	})
+	return out.Status == vrt.StOK && n == 3 && out.Steps >= 6 && out.Threads == 2
 }
